@@ -213,6 +213,13 @@ std::string RouterSession::throughShapeClass(const Cn &c, Pt p, Pt q, const Poly
         for (auto &sk : shapes) if (sk.second.alive) for (auto &v : grown(sk.second.poly)) if (std::fabs(v.x - e.x) < 1e-7 && std::fabs(v.y - e.y) < 1e-7) return true;
         return false;
     };
+    // one contact only: the segment starts (or ends) at a vertex of ANOTHER shape that lies in the open interior of an edge of the crossed
+    // shape (shapes touching along a side) and cuts properly through a second edge -- a corner of the crossed shape is clipped
+    {
+        auto ownV = [&](Pt e) { for (auto &v : gp) if (std::fabs(v.x - e.x) < 1e-7 && std::fabs(v.y - e.y) < 1e-7) return true; return false; };
+        bool v0 = isVertex(e0) && !ownV(e0), v1 = isVertex(e1) && !ownV(e1);
+        if ((v0 && !isVertex(e1)) || (v1 && !isVertex(e0))) return ":enters-at-a-vertex-of-a-touching-shape-and-clips-a-corner-of-the-crossed-shape";
+    }
     if (isVertex(e0) && isVertex(e1)) {
         // sub-class: BOTH contact points are vertices of other (touching) shapes lying in the open interior of an edge of the crossed
         // shape -- a chord between two mid-edge contacts, not a pass through one of the crossed shape's own corners
